@@ -63,6 +63,18 @@ def sqla_bases():
     B["query-ordered"] = (lambda s: s.query(P).order_by(P.title, P.id.desc()), True)
     B["query-joined-rel"] = (lambda s: s.query(P).join(P.author), False)
     B["query-joined-rel-outer"] = (lambda s: s.query(P).join(P.author, isouter=True), False)
+    # the root entity is an alias of the mapped class (plain, pre-filtered, over a subquery)
+    from sqlalchemy.orm import aliased
+
+    def al(f):
+        return lambda s: f(s, aliased(P))
+    B["aliased-select-id"] = (al(lambda s, PA: sa.select(PA.id)), False)
+    B["aliased-select-entity"] = (al(lambda s, PA: sa.select(PA)), False)
+    B["aliased-filtered"] = (al(lambda s, PA: sa.select(PA.id).where(PA.rating >= 5)), False)
+    B["aliased-ordered"] = (al(lambda s, PA: sa.select(PA.id).order_by(PA.title.desc(), PA.id)), True)
+    B["aliased-query"] = (al(lambda s, PA: s.query(PA)), False)
+    B["aliased-over-subquery"] = (
+        lambda s: (lambda PA: sa.select(PA.id))(aliased(P, sa.select(P).where(P.rating >= 5).subquery())), False)
     return B
 
 
